@@ -720,7 +720,7 @@ class Combiner(Node):
                 self._update_worker_occupancy(action="ADD")
                 self.stats["processing_delay"].append(next_processing_time)  # Update the processing delay in stats
                 print(f"T={self.env.now:.2f}: {self.id} worker started processing pallet {self.pallet_in_process.id} ")
-                self.check_thread_state_and_update_combiner_state()  # Check and update the combiner state based on worker states
+                self.update_state("PROCESSING_STATE", self.env.now)  # the loaded pallet is being processed; its worker process is created after the delay
                 processing_start_time = self.env.now
                 #wait for processing_delay amount of time
                 yield self.env.timeout(next_processing_time)
